@@ -98,8 +98,11 @@ Fixpoint eval_f (env : nat -> fmat) {m n : nat} (e : mexp m n) : fmat :=
 
 (* ---- comparison helpers for the correspondence check --------------------------- *)
 Definition fabs (x : float) : float := abs x.
+(* max |entry|; NaN-propagating: if any entry is NaN the result is NaN (and stays NaN), so every
+   comparison `leb (fmaxabs D) tol` / every scale built from it FAILS on NaN instead of skipping it *)
 Definition fmaxabs (A : fmat) : float :=
-  fold_left (fun acc r => fold_left (fun a x => if ltb a (fabs x) then fabs x else a) r acc) A 0.
+  fold_left (fun acc r => fold_left (fun a x => let y := fabs x in
+                                     if ltb a y then y else if eqb y y then a else y) r acc) A 0.
 Fixpoint shape_eqb (A B : fmat) : bool :=
   match A, B with
   | [], [] => true
